@@ -118,3 +118,85 @@ package iso7816
 //@ lemma rapdu_roundtrip: forall b seq :: len(b) >= 2 && 0 <= b[len(b)-2] && b[len(b)-2] < 256 && 0 <= b[len(b)-1] && b[len(b)-1] < 256 ==>
 //@     cat(b[:len(b)-2], seq((b[len(b)-2]*256 + b[len(b)-1]) / 256, (b[len(b)-2]*256 + b[len(b)-1]) % 256)) === b
 //@   props C17
+
+// ---------------------------------------------------------------- C13: file reads
+//
+// Ghost chip model. ef(nfc) is the content of the elementary file selected by the most recent
+// successful SELECT on this session's chip. The conforming-chip assumption is attached to DoAPDU
+// (trusted): a successful READ BINARY (CLA 00, INS B0) at offset P1*256+P2 answers with
+// ef[o : o+m] for some m chosen by the chip (any chunking, any cap); a SELECT answered 6A82/6283
+// means the chip said "not found". Everything else about the response is arbitrary.
+//
+//@ uf ef(ref) seq
+//@ uf chipSaidNotFound(ref, int) bool
+//@ spec func tlvTotal(s seq) int { tagLenS(s) + lenLenS(s[tagLenS(s):]) + lenValS(s[tagLenS(s):]) }
+
+//@ func (nfc *NfcSession) DoAPDU
+//@   props C13 C11
+//@   trusted
+//@   requires nfc != nil && cApdu != nil
+//@   ensures err == nil ==> rApdu != nil
+//@   ensures err != nil ==> rApdu == nil
+//@   ensures "conforming-chip-read-binary": err == nil && cApdu.cla == 0 && cApdu.ins == 176 && rApdu.Status == 36864 ==>
+//@        cApdu.p1*256 + cApdu.p2 + len(rApdu.Data) <= len(ef(nfc))
+//@        && rApdu.Data === ef(nfc)[cApdu.p1*256 + cApdu.p2 : cApdu.p1*256 + cApdu.p2 + len(rApdu.Data)]
+//@   ensures "chip-said-not-found": err == nil && cApdu.ins == 164 && len(cApdu.data) == 2 && (rApdu.Status == 27266 || rApdu.Status == 25219) ==>
+//@        chipSaidNotFound(nfc, cApdu.data[0]*256 + cApdu.data[1])
+//@   assigns nfc.lastApduLogEntry, content(nfc.apduLog), content(nfc.sm)
+
+//@ func (apdu *RApdu) IsSuccess
+//@   props C13 C11
+//@   requires apdu != nil
+//@   ensures result == (apdu.Status == 36864)
+//@   pure
+//@   safety all
+//@ func (apdu *RApdu) FileNotFound
+//@   props C13 C11
+//@   requires apdu != nil
+//@   ensures result == (apdu.Status == 27266)
+//@   pure
+//@   safety all
+
+//@ func (nfc *NfcSession) SelectEF
+//@   props C13 C11
+//@   requires nfc != nil
+//@   ensures "not-found-only-if-chip-says-so": err == nil && !selected ==> chipSaidNotFound(nfc, fileId)
+//@   ensures err != nil ==> !selected
+//@   assigns nfc.lastApduLogEntry, content(nfc.apduLog), content(nfc.sm)
+//@   safety all
+
+//@ func (nfc *NfcSession) ReadBinaryFromOffset
+//@   props C13 C11
+//@   requires nfc != nil
+//@   requires "offset16": 0 <= offset && offset <= 65535
+//@   ensures "chunk-is-file-segment": err == nil ==> len(result0) <= length && offset + len(result0) <= len(ef(nfc))
+//@        && result0 === ef(nfc)[offset : offset + len(result0)]
+//@   ensures err != nil ==> result0 == nil
+//@   assigns nfc.lastApduLogEntry, content(nfc.apduLog), content(nfc.sm)
+//@   safety all
+
+//@ func (nfc *NfcSession) readWithFallback
+//@   props C13 C11
+//@   requires nfc != nil
+//@   requires "offset16": 0 <= offset && offset <= 65535
+//@   ensures "chunk-is-file-segment": err == nil ==> len(result0) <= remaining && offset + len(result0) <= len(ef(nfc))
+//@        && result0 === ef(nfc)[offset : offset + len(result0)]
+//@   ensures "max-only-decreases": result1 <= maxReadAmount
+//@   loop 1 invariant err != nil
+//@   assigns nfc.lastApduLogEntry, content(nfc.apduLog), content(nfc.sm)
+//@   safety all
+
+//@ func (nfc *NfcSession) ReadFile
+//@   props C13 C11
+//@   requires nfc != nil && nfc.readFileMaxChunks >= 0 && nfc.readFileMaxTlvLength <= 65535
+//@   ensures "exact-file": err == nil && fileData != nil ==> len(fileData) == tlvTotal(ef(nfc)) && fileData === ef(nfc)[:len(fileData)]
+//@   ensures "not-found-only-if-chip-says-so": err == nil && fileData == nil ==> chipSaidNotFound(nfc, fileId)
+//@   ensures "max-le-only-decreases": nfc.maxLe <= old(nfc.maxLe)
+//@   loop 1 invariant fileBuf != nil && nfc != nil && fileBuf === ef(nfc)[:len(fileBuf)] && len(fileBuf) <= len(ef(nfc))
+//@   loop 1 invariant "buffered-less-than-total": len(fileBuf) < totalBytes
+//@   loop 1 invariant "total-is-header-plus-value": totalBytes == tlvTotal(ef(nfc))
+//@   loop 1 invariant "total-bounded": totalBytes <= 65539
+//@   loop 1 invariant 0 <= chunkCnt && chunkCnt <= nfc.readFileMaxChunks && nfc.readFileMaxChunks == old(nfc.readFileMaxChunks)
+//@   loop 1 invariant maxReadAmount <= old(nfc.maxLe) && nfc.maxLe <= old(nfc.maxLe)
+//@   loop 1 decreases nfc.readFileMaxChunks - chunkCnt
+//@   safety all
